@@ -489,6 +489,9 @@ func c10mkSpec(sec, in, ans string) (string, string) {
 			if strings.Contains(varname, "#") {
 				return "valuealign-panic-escaped-hash-in-varname", "matchVarassign accepts the line but MkLine.ValueAlign() (VaralignSplitter.split) panics"
 			}
+			if hc && strings.Contains(varname, "$") {
+				return "valuealign-panic-expression-reads-comment", "matchVarassign accepts the line but MkLine.ValueAlign() (VaralignSplitter.split re-parses the raw line including the comment) panics"
+			}
 			return "valuealign-panic", "matchVarassign accepts the line but MkLine.ValueAlign() (VaralignSplitter.split) panics"
 		}
 		tail := ""
@@ -1220,7 +1223,7 @@ func runC10mk(ctx *Ctx) *Result {
 	}
 
 	// corpus: inputs that once mattered
-	corpus := []string{"A.\\#=v", " \t#x", "A.\\#\\#b${c}\\# =v", "X= ${VAR:!echo $$x!}", "${A:!$", "${A:!a$$!}", "${A:x${A:x${A:x${A:x}}}}", "a$", "$", "$$", "${", "$(", "${}", "${:}", "${A:S}",
+	corpus := []string{"A.\\#=v", " \t#x", "$\\#=v", "${A:S,a,b}=v # ,}", "A.\\#\\#b${c}\\# =v", "X= ${VAR:!echo $$x!}", "${A:!$", "${A:!a$$!}", "${A:x${A:x${A:x${A:x}}}}", "a$", "$", "$$", "${", "$(", "${}", "${:}", "${A:S}",
 		"${A:S,a,b,S,c,d,}", "${A:S=x}", "${A:ts}", "${A:ts:}", "${A:@v@$v@}", "${A:[#]}", "${A::=x}", "${:!x!}", "#A=v", "# A=v", " A=v", "A=v # c", "A=\\#x #y", "A= [#] #c",
 		"A=v\\", "A=v \\\\", "\tA=v", "A+=v", "A+ =v", "A =v", "SITES_a.b=c", "A=#", "A= #", "A=\\"}
 	var cs []c10mkCase
